@@ -4,6 +4,8 @@ CONSTANTS
   MaxDepth = 2
   MaxRoots = 1
   RootFilter = {"users", "allPets", "nestedType"}
+  FieldFilter = {}
+  MaxReval = 0
   Mut = "none"
 SPECIFICATION Spec
 INVARIANTS RefOK WellFormedInv
